@@ -167,11 +167,65 @@ class SymGen:
             self.path.add_fact(z3.And(idx >= 0, idx < n))
             return VEnum(cls, idx)
         if cls.is_str_subclass():
-            return VStr([self.leaf(SEQ, name, args)])
+            sv = VStr([self.leaf(SEQ, name, args)])
+            self.assume_len_invariant_of_str_subclass(cls, sv)
+            return sv
         ident = self.leaf(z3.IntSort(), name, args)
         obj = SymObj(ident, (cls,))
         self.assume_tag(obj)
         return obj
+
+    def assume_len_invariant_of_str_subclass(self, cls: ClassInfo, sv: VStr) -> None:
+        """Data invariant of a tagging ``str`` subclass: the ``@require`` of its ``__new__`` (a call-site obligation at
+        every construction) is assumed for symbolic values of the type -- only when it speaks of nothing but the length
+        of the text (``len(text) == 1``); pattern-based requirements are left out, which only weakens the hypotheses."""
+        for c in cls.mro():
+            new = c.methods.get("__new__")
+            if new is None or len(new.params) != 2:
+                continue
+            pname = new.params[1].arg
+            for lam, _ in new.requires:
+                if [a.arg for a in lam.args.args] != [pname]:
+                    continue
+                ok = all(isinstance(n, (ast.Compare, ast.BoolOp, ast.And, ast.Or, ast.Constant, ast.Load, ast.cmpop))
+                         or (isinstance(n, ast.Name) and n.id in (pname, "len"))
+                         or (isinstance(n, ast.Call) and isinstance(n.func, ast.Name) and n.func.id == "len")
+                         for n in ast.walk(lam.body))
+                if not ok or any(isinstance(n, ast.Constant) and not isinstance(n.value, int) for n in ast.walk(lam.body)):
+                    continue
+
+                def ev(n: ast.AST) -> Any:
+                    if isinstance(n, ast.Constant):
+                        return z3.IntVal(n.value)
+                    if isinstance(n, ast.Call):
+                        if len(n.args) != 1 or not isinstance(n.args[0], ast.Name) or n.args[0].id != pname:
+                            raise Unsupported("len of something else")
+                        return z3.Length(sv.t)
+                    if isinstance(n, ast.BoolOp):
+                        parts = [ev(v) for v in n.values]
+                        return z3.And(*parts) if isinstance(n.op, ast.And) else z3.Or(*parts)
+                    if isinstance(n, ast.Compare) and len(n.ops) == 1:
+                        a, b = ev(n.left), ev(n.comparators[0])
+                        op = n.ops[0]
+                        table = {ast.Eq: a == b, ast.NotEq: a != b, ast.Lt: a < b, ast.LtE: a <= b, ast.Gt: a > b,
+                                 ast.GtE: a >= b}
+                        if type(op) in table:
+                            return table[type(op)]
+                    raise Unsupported("shape")
+                try:
+                    fact = ev(lam.body)
+                except Unsupported:
+                    continue
+                if not z3.is_bool(fact):
+                    continue
+                saved_temps = self.path.temps
+                self.path.temps = []  # holds wherever the value is used, not only under the current guard
+                try:
+                    self.path.add_fact(fact)
+                finally:
+                    self.path.temps = saved_temps
+                self.note_assumption(f"data invariant: @require of {new.qualname} ({ast.unparse(lam.body)}) holds for "
+                                     f"symbolic values of type {cls.name}")
 
     def mk_union(self, alts: List[ast.expr], module: Module, name: str, args: Tuple[Any, ...]) -> V:
         classes: List[ClassInfo] = []
